@@ -91,7 +91,7 @@ def case_strategy(draw, percpu=False):
             ["py_hget", "py_hset", "pr_hget", "pr_hset", "pr_hsetx", "py_dset",
              "py_dget", "py_ddel", "py_dpop", "py_dpopd", "py_diter",
              "pr_dupd", "pr_dlook", "pr_dmod", "py_aget", "py_pread",
-             "pr_dupd2", "pr_hcopy", "py_din"]))
+             "pr_dupd2", "pr_hcopy", "py_din", "sib_hset", "sib_dset"]))
         k = draw(st.integers(0, len(hv) - 1))
         f = hv[k]["fmt"]
         op = {"op": kind, "k": k,
@@ -585,6 +585,36 @@ def run_case(case, judge_overruns=False):
                     if present and kind == "pr_dmod":
                         table[key] = list(op["vals"])
                         written_by["d", key] = "pr"
+                elif kind in ("sib_hset", "sib_dset"):
+                    # the other program object of the class has maps of its
+                    # own: what happens there is not seen here
+                    other = getattr(e, "sibling", None)
+                    if other is None:
+                        continue
+                    if kind == "sib_hset":
+                        v = op["hval"] / 100000 if fmt == "x" else op["hval"]
+                        setattr(other, f"hv{k}", v)
+                        if getattr(other, f"hv{k}") != v:
+                            return fail(f"the second program object reads "
+                                        f"{getattr(other, f'hv{k}')} from "
+                                        f"its hash variable {k}:{fmt} after "
+                                        f"{v} was written", bucket=kind)
+                    else:
+                        other.table[mk(Key, knames, key)] = mk(
+                            Value, vnames, op["vals"])
+                    got = getattr(e, f"hv{k}")
+                    if got != cells[k]:
+                        return fail(f"after a write to the second program "
+                                    f"object of the class, hash variable "
+                                    f"{k}:{fmt} of the first reads {got}, it "
+                                    f"holds {cells[k]}", bucket=kind)
+                    mine = {tuple(getattr(kk, n) for n in knames)
+                            for kk in e.table}
+                    if mine != set(table) and not case["lru"]:
+                        return fail(f"after an insert into the Dict of the "
+                                    f"second program object, the first one's "
+                                    f"Dict has keys {sorted(mine)}, expected "
+                                    f"{sorted(table)}", bucket=kind)
                 elif kind == "py_din":
                     got = mk(Key, knames, key) in e.table
                     if got != (key in table):
@@ -665,6 +695,8 @@ def run_case(case, judge_overruns=False):
                         continue
                     run_prog(op=6, a0=abs(op["hval"]) & 0xffff)
                     e.pmap.read()
+                    if getattr(e, "sibling", None) is not None:
+                        e.sibling.pmap.read()
                     got = list(e.pc0)
                     if (abs(op["hval"]) & 0xffff) not in (
                             got if on_kernel else got[:1]):
